@@ -8,12 +8,12 @@ import (
 
 // Leaf is one scalar SMT component of a flattened Go value.
 type Leaf struct {
-	Path string // ".Field.Sub" or ".seq" etc; "" for scalars
-	Sort string // Int, Bool, BSeq
-	Zero string // zero value term
-	Ref  bool   // holds an object/array reference
-	T    types.Type // Go type of the innermost scalar/slice/iface this leaf belongs to
-	Bits int    // for ints: width (0 otherwise)
+	Path   string     // ".Field.Sub" or ".seq" etc; "" for scalars
+	Sort   string     // Int, Bool, BSeq
+	Zero   string     // zero value term
+	Ref    bool       // holds an object/array reference
+	T      types.Type // Go type of the innermost scalar/slice/iface this leaf belongs to
+	Bits   int        // for ints: width (0 otherwise)
 	Signed bool
 }
 
